@@ -129,6 +129,7 @@ type Interp struct {
 	curFn      *ssa.Function
 	harnessPkg *ssa.Package
 	smallLen   int
+	fixedMapOrder bool
 	schedLog   []string
 	mergeGuard *Term
 	noMerge    bool
@@ -425,6 +426,7 @@ func (in *Interp) Explore(fn *ssa.Function) {
 		in.pendingEnd = nil
 		in.callDepth = 0
 		in.smallLen = 4
+		in.fixedMapOrder = false
 		in.schedLog = nil
 		in.mergeGuard = nil
 		in.ignorePanics = false
